@@ -36,6 +36,16 @@ M = {
         "                if log_number + 1 not in self._log_number_offset:",
         "                if log_number < log_number_from and not line.endswith(b\"\\n\"):\n                    self._log_number_offset[log_number + 1] = self._log_number_offset[log_number] + byte_len\n                    continue\n                if log_number + 1 not in self._log_number_offset:",
         ["C07"]),
+    # ---- C06 -------------------------------------------------------------------------------
+    "journal-advance-read-after-apply": ("optuna/storages/journal/_storage.py",
+        "        for log in logs:\n            self.log_number_read += 1\n            op = log[\"op_code\"]",
+        "        for log in logs:\n            self.log_number_read += 0\n            op = log[\"op_code\"]", ["C06"], [("            else:\n                assert False, \"Should not reach.\"\n\n    def get_study(", "            else:\n                assert False, \"Should not reach.\"\n            self.log_number_read += 1\n\n    def get_study(")]),
+    "journal-dup-study-raises-everywhere": ("optuna/storages/journal/_storage.py",
+        "        if study_name in [s.study_name for s in self._studies.values()]:\n            if self._is_issued_by_this_worker(log):",
+        "        if study_name in [s.study_name for s in self._studies.values()]:\n            if True:", ["C06"]),
+    "journal-apply-rejected-param-at-non-issuers": ("optuna/storages/journal/_storage.py",
+        "                    if self._is_issued_by_this_worker(log):\n                        raise\n                    return\n",
+        "                    if self._is_issued_by_this_worker(log):\n                        raise\n", ["C06"]),
     # ---- C05 -------------------------------------------------------------------------------
     "file-unfix-torn-tail": ("optuna/storages/journal/_file.py",
         "            self._drop_unterminated_tail()\n", "", ["C05"]),
@@ -60,7 +70,8 @@ M = {
 
 
 def run_one(name: str, tier: str) -> bool:
-    f, old, new, checks = M[name]
+    f, old, new, checks = M[name][:4]
+    extra = M[name][4] if len(M[name]) > 4 else []
     root = f"/dev/shm/vfmut_{os.getpid()}_{name}"
     shutil.rmtree(root, ignore_errors=True)
     os.makedirs(root)
@@ -71,7 +82,11 @@ def run_one(name: str, tier: str) -> bool:
         print(f"[{name}] STALE: pattern not found in {f}")
         shutil.rmtree(root)
         return False
-    open(p, "w").write(s.replace(old, new, 1))
+    s = s.replace(old, new, 1)
+    for o2, n2 in extra:
+        assert o2 in s, "stale extra pattern"
+        s = s.replace(o2, n2, 1)
+    open(p, "w").write(s)
     ok = True
     for c in checks:
         env = dict(os.environ, VF_REPO=root)
